@@ -3,6 +3,8 @@ package vlib
 import (
 	"fmt"
 	"reflect"
+	"strings"
+	"sync"
 	"unsafe"
 )
 
@@ -18,7 +20,26 @@ type Mutation struct {
 // Mutations enumerates the substitutions of every leaf reachable from root (a pointer). donor (same type, may
 // be nil) supplies the "value from another honest proof" substitutions. maxPerSlice bounds the elements visited
 // per slice (first two, middle, last two are kept when longer).
-func Mutations(root any, donor any, maxPerSlice int) []Mutation {
+// MutOpt: optional substitution families. Torsion maps a point type to a pointer to a non-zero point of that type whose
+// order divides the cofactor: "P + T" leaves every pairing equation intact, so only a verifier that tests subgroup
+// membership rejects it (used for the verifiers that are documented to make that test).
+type MutOpt struct {
+	Torsion map[reflect.Type]any
+	// TorsionPathContains restricts that family to the leaves whose path contains the string (the components the
+	// verifier is documented to subgroup-check)
+	TorsionPathContains string
+}
+
+var curMutOpt *MutOpt // set for the duration of one Mutations call (guarded by mutMu)
+var mutMu sync.Mutex
+
+func Mutations(root any, donor any, maxPerSlice int, opts ...MutOpt) []Mutation {
+	mutMu.Lock()
+	defer mutMu.Unlock()
+	curMutOpt = nil
+	if len(opts) > 0 {
+		curMutOpt = &opts[0]
+	}
 	var out []Mutation
 	rv := reflect.ValueOf(root)
 	if rv.Kind() != reflect.Ptr {
@@ -131,6 +152,10 @@ func walkMut(v, donor reflect.Value, path string, maxPer int, out *[]Mutation) {
 				p.MethodByName("Add").Call([]reflect.Value{p, c})
 			})
 		}
+		if curMutOpt != nil && curMutOpt.Torsion[t] != nil && strings.Contains(path, curMutOpt.TorsionPathContains) {
+			tor := reflect.ValueOf(curMutOpt.Torsion[t])
+			saveRestore("plus-cofactor-torsion", func() { p.MethodByName("Add").Call([]reflect.Value{p, tor}) })
+		}
 		donorMut()
 		return
 	}
@@ -173,6 +198,14 @@ func walkMut(v, donor reflect.Value, path string, maxPer int, out *[]Mutation) {
 				d = donor.Index(i)
 			}
 			walkMut(v.Index(i), d, fmt.Sprintf("%s[%d]", path, i), maxPer, out)
+		}
+		// shape: one item fewer
+		if t.Kind() == reflect.Slice && n >= 1 && v.CanSet() {
+			oldHdr := reflect.New(t).Elem()
+			oldHdr.Set(v)
+			vv := v
+			*out = append(*out, Mutation{Path: path, Kind: "shape-shortened", Apply: func() { vv.Set(oldHdr.Slice(0, n-1)) }, Revert: func() { vv.Set(oldHdr) }})
+			// (an item more is not enumerated: verifiers may ignore trailing items, which does not change the statement)
 		}
 		// swap the first two items when they differ
 		if n >= 2 && shapeOf(v.Index(0)) == shapeOf(v.Index(1)) && DeepDump(settable(v.Index(0)).Interface()) != DeepDump(settable(v.Index(1)).Interface()) {
@@ -221,9 +254,10 @@ func pickIdx(n, max int) []int {
 // Auxiliary leaves (named in AuxiliaryLeaves) are substituted as well, but only a panic is a violation for them:
 // they are hints that are not part of the statement (see DESIGN.md).
 var AuxiliaryLeaves = map[string]string{
-	"Proof.size":             "permutation / lookup proofs: the domain size hint; size+1 is not an admissible (power-of-two) statement size",
-	"ProofLookupVector.size": "same",
-	"OpeningProof.index":     "fri opening: redundant copy of the position argument, which is what the verifier uses",
+	"Proof.size":                    "permutation / lookup proofs: the domain size hint; size+1 is not an admissible (power-of-two) statement size",
+	"ProofLookupVector.size":        "same",
+	"OpeningProof.index":            "fri opening: redundant copy of the position argument, which is what the verifier uses",
+	"VerifierInput.SelectedColumns": "vortex: how many columns are opened is the verifier's own choice (its sampled positions), not part of the proof",
 }
 
 func isAux(path string) bool {
@@ -235,10 +269,10 @@ func isAux(path string) bool {
 	return false
 }
 
-func RejectAll(r *Run, g, keyPrefix, id string, root any, donor any, maxPer int, verify func() error) int {
+func RejectAll(r *Run, g, keyPrefix, id string, root any, donor any, maxPer int, verify func() error, opts ...MutOpt) int {
 	n := 0
 	orig := DeepDump(reflect.ValueOf(root).Elem().Interface())
-	for _, m := range Mutations(root, donor, maxPer) {
+	for _, m := range Mutations(root, donor, maxPer, opts...) {
 		m.Apply()
 		if DeepDump(reflect.ValueOf(root).Elem().Interface()) == orig {
 			m.Revert()
@@ -250,7 +284,10 @@ func RejectAll(r *Run, g, keyPrefix, id string, root any, donor any, maxPer int,
 		m.Revert()
 		cid := id + ": " + m.Path + " " + m.Kind
 		if pn != "" {
-			r.FailIn(g, keyPrefix+"/panic-on-forged-proof", cid, "verifier panics on "+cid+": "+pn, nil)
+			// a proof object whose lists have inconsistent lengths is not a well-formed proof: only its acceptance counts
+			if !strings.HasPrefix(m.Kind, "shape-") {
+				r.FailIn(g, keyPrefix+"/panic-on-forged-proof", cid, "verifier panics on "+cid+": "+pn, nil)
+			}
 		} else if err == nil && !isAux(stripIdx(m.Path)) {
 			r.FailIn(g, keyPrefix+"/accepts-forged-proof/"+stripIdx(m.Path)+"/"+m.Kind, cid, "the verifier accepts the proof after the substitution "+cid, nil)
 		}
@@ -279,7 +316,6 @@ func stripIdx(p string) string {
 	}
 	return string(out)
 }
-
 
 // SetField sets the (possibly unexported) field name of the struct root points to.
 func SetField(root any, name string, val any) {
